@@ -175,3 +175,132 @@ Example C17_conforming_reply_example :
   exists e out reply, wf_env e = true /\ GroupKeyEnvelope_pack e = Ok out /\ ndr64_getkey_reply out 0 = Some reply /\
     process_get_key_result (reply ++ repeat 0 5) (Some 5) = Ok e.
 Proof. exact conforming_reply_exists. Qed.
+
+(* ---- flows: the functions of the source themselves, regenerated as syntax on every run (gen/F_client.v, gen/F_online.v), ARE the model
+   functions the theorems above are about.  run_self (Proofs/FlowClientLib.v) = PyAst.run that also reports the final value of "self".
+   First the steps that live in _rpc/_client.py / _rpc/_auth.py, in the world Flow/World_client.v (dataclasses := the records of Model/Pdu.v,
+   Bind.v, Request.v; the security context := a script of legs and arbitrary wrap / unwrap functions). ---- *)
+From V Require Import Prelude.PyAst Prelude.PyWorld gen.F_client Proofs.FlowClientLib Flow.World_client Proofs.Flow_client_conv.
+
+(* _create_bind builds exactly the Bind PDU Model/Conversation.v puts behind Handshake's abstract SBind (first lemma: the record, for every
+   context list and optional trailer; second: that record for the contexts / trailer of a run is bind_pdu_of_sent) *)
+Theorem C17_flow_create_bind : forall wrap unwrap pfuel sch fuel c cs st,
+  run_self (WC wrap unwrap pfuel sch) fuel k_flow_create_bind [VO (OSelf c); VL (map cev cs); stv st]
+  = Ok (VO (OBind {| b_header := create_pdu_header c_PT_BIND (match st with Some s => len (st_auth_value s) | None => 0 end) 1
+                                    (match st with Some _ => Z.lor c_PFC_NONE c_PFC_SUPPORT_HEADER_SIGN | None => c_PFC_NONE end);
+                     b_sec_trailer := st; b_max_xmit_frag := 5840; b_max_recv_frag := 5840; b_assoc_group := 0; b_contexts := cs |}),
+        Some (VO (OSelf (match st with Some _ => cl_set_sign c true | None => c end)))).
+Proof. exact flow_create_bind_pdu. Qed.
+Print Assumptions C17_flow_create_bind.
+Theorem C17_flow_create_bind_model : forall pv all ids tk,
+  {| b_header := create_pdu_header c_PT_BIND (match option_map (step_trailer pv) tk with Some s => len (st_auth_value s) | None => 0 end) 1
+                   (match option_map (step_trailer pv) tk with Some _ => Z.lor c_PFC_NONE c_PFC_SUPPORT_HEADER_SIGN | None => c_PFC_NONE end);
+     b_sec_trailer := option_map (step_trailer pv) tk; b_max_xmit_frag := 5840; b_max_recv_frag := 5840; b_assoc_group := 0;
+     b_contexts := select_contexts all ids |}
+  = bind_pdu_of_sent pv all (SBind (match tk with Some _ => Z.lor c_PFC_NONE c_PFC_SUPPORT_HEADER_SIGN | None => c_PFC_NONE end) tk ids).
+Proof. exact create_bind_pdu_is_model. Qed.
+Print Assumptions C17_flow_create_bind_model.
+
+Theorem C17_flow_create_alter_context : forall wrap unwrap pfuel sch fuel c cs s,
+  run_self (WC wrap unwrap pfuel sch) fuel k_flow_create_alter_context [VO (OSelf c); VL (map cev cs); VO (OSt s)]
+  = Ok (VO (OAlter {| b_header := create_pdu_header c_PT_ALTER_CONTEXT (len (st_auth_value s)) 1
+                                     (k_alter_flags (cl_sign c) c_PFC_SUPPORT_HEADER_SIGN c_PFC_NONE);
+                      b_sec_trailer := Some s; b_max_xmit_frag := 5840; b_max_recv_frag := 5840; b_assoc_group := 0; b_contexts := cs |}),
+        Some (VO (OSelf c))).
+Proof. exact flow_create_alter_context_pdu. Qed.
+Print Assumptions C17_flow_create_alter_context.
+Theorem C17_flow_create_alter_context_model : forall pv all ids fl tk,
+  {| b_header := create_pdu_header c_PT_ALTER_CONTEXT (len (st_auth_value (step_trailer pv tk))) 1 fl;
+     b_sec_trailer := Some (step_trailer pv tk); b_max_xmit_frag := 5840; b_max_recv_frag := 5840; b_assoc_group := 0;
+     b_contexts := select_contexts all ids |}
+  = bind_pdu_of_sent pv all (SAlter fl tk ids).
+Proof. exact create_alter_pdu_is_model. Qed.
+Print Assumptions C17_flow_create_alter_context_model.
+
+(* AuthenticationProvider.step: the level-6 trailer (Conversation.step_trailer) around the security context's next token *)
+Theorem C17_flow_auth_step : forall wrap unwrap pfuel sch fuel ap tok sig_len,
+  run (WC wrap unwrap pfuel sch) fuel k_flow_auth_step [VO (OAuthP ap); optbv tok]
+  = match ap_legs ap with
+    | [] => Raise KeyError
+    | l :: _ => Ok (VO (OSt (step_trailer {| pv_type := ap_provider ap; pv_sig_len := sig_len |} (leg_token l))))
+    end.
+Proof. exact flow_auth_step. Qed.
+Print Assumptions C17_flow_auth_step.
+Theorem C17_flow_auth_complete : forall wrap unwrap pfuel sch fuel ap,
+  run (WC wrap unwrap pfuel sch) fuel k_flow_auth_complete [VO (OAuthP ap)] = Ok (vb (ap_complete ap)).
+Proof. exact flow_auth_complete. Qed.
+Print Assumptions C17_flow_auth_complete.
+
+(* SyncRpcClient.request (and AsyncRpcClient.request: the same term) is Conversation.rpc_request: the Response is returned, what went on
+   the wire and what was handed to the security context's wrap is recorded in the client *)
+Theorem C17_flow_request : forall wrap unwrap pfuel sch fuel c cid op stub vt,
+  run_self (WC wrap unwrap pfuel sch) fuel k_flow_sync_request [VO (OSelf c); VI cid; VI op; VB stub; vtv vt]
+  = match rpc_request (cl_flavour c) wrap unwrap (cl_auth c) (cl_sign c) cid op stub (option_map verification_trailer_pack vt) (cl_stream c) sch with
+    | (Ok sent, Ok rsp) => Ok (VO (OResp rsp), Some (VO (OSelf (cl_add_sent c sent))))
+    | (Raise e, _) => Raise e
+    | (_, Raise e) => Raise e
+    end.
+Proof. exact flow_sync_request. Qed.
+Print Assumptions C17_flow_request.
+Theorem C17_flow_request_twin : k_flow_async_request = k_flow_sync_request.
+Proof. exact flow_request_twin. Qed.
+Print Assumptions C17_flow_request_twin.
+
+(* ... then _client.py itself, in the world Flow/World_online.v: the connection object's bind / request are Handshake.bind_run /
+   Conversation.rpc_request against the peer script; the other callees are their models. *)
+From V Require Import gen.F_online Flow.World_online Proofs.Flow_online_conv.
+
+Theorem C17_flow_process_ept_map_result : forall wrap unwrap prov legs dc efuel fuel rsp,
+  run (WO wrap unwrap prov legs dc efuel) fuel k_flow_process_ept_map_result [VO (OResp rsp)]
+  = (let* (p, _) := process_ept_map_result efuel (rs_stub_data rsp) in Ok (VI p)).
+Proof. exact flow_process_ept_map_result. Qed.
+Print Assumptions C17_flow_process_ept_map_result.
+
+Theorem C17_flow_process_get_key_result : forall wrap unwrap prov legs dc efuel fuel rsp,
+  run (WO wrap unwrap prov legs dc efuel) fuel k_flow_process_get_key_result [VO (OResp rsp)]
+  = (let* e := process_get_key_result (rs_stub_data rsp)
+                 (match rs_sec_trailer rsp with Some st => Some (st_pad_length st) | None => None end) in
+     Ok (VO (OEnvl e))).
+Proof. exact flow_process_get_key_result. Qed.
+Print Assumptions C17_flow_process_get_key_result.
+
+(* _sync_get_key and _async_get_key ARE get_key_conversation at their flavour, for every peer script, provider script and security
+   context (precondition: auth_protocol is a non-empty string, so that the second connection carries an AuthenticationProvider) *)
+Theorem C17_flow_sync_get_key : forall wrap unwrap prov legs dc efuel fuel server sd rk l0 l1 l2 u p proto,
+  proto <> [] ->
+  run (WO wrap unwrap prov legs dc efuel) fuel k_flow_sync_get_key [VS server; VB sd; optbv rk; VI l0; VI l1; VI l2; u; p; VS proto]
+  = (let* e := fst (get_key_conversation Sync wrap unwrap prov legs dc sd rk l0 l1 l2) in Ok (VO (OEnvl e))).
+Proof. exact flow_sync_get_key. Qed.
+Print Assumptions C17_flow_sync_get_key.
+Theorem C17_flow_async_get_key : forall wrap unwrap prov legs dc efuel fuel server sd rk l0 l1 l2 u p proto,
+  proto <> [] ->
+  run (WO wrap unwrap prov legs dc efuel) fuel k_flow_async_get_key [VS server; VB sd; optbv rk; VI l0; VI l1; VI l2; u; p; VS proto]
+  = (let* e := fst (get_key_conversation Async wrap unwrap prov legs dc sd rk l0 l1 l2) in Ok (VO (OEnvl e))).
+Proof. exact flow_async_get_key. Qed.
+Print Assumptions C17_flow_async_get_key.
+
+(* sync = async, on the source (the half C17_sync_async_partial left to the correspondence): the two regenerated functions return the
+   same envelope or the same error whenever the two receive loops deliver the same PDUs *)
+Theorem C17_flow_get_key_sync_async : forall wrap unwrap prov legs dc efuel fuel server sd rk l0 l1 l2 u p proto,
+  proto <> [] ->
+  recv_pdu Sync (ds_ept_stream dc) (ds_sched dc) = recv_pdu Async (ds_ept_stream dc) (ds_sched dc) ->
+  recv_pdu Sync (ds_getkey_stream dc) (ds_sched dc) = recv_pdu Async (ds_getkey_stream dc) (ds_sched dc) ->
+  run (WO wrap unwrap prov legs dc efuel) fuel k_flow_sync_get_key [VS server; VB sd; optbv rk; VI l0; VI l1; VI l2; u; p; VS proto]
+  = run (WO wrap unwrap prov legs dc efuel) fuel k_flow_async_get_key [VS server; VB sd; optbv rk; VI l0; VI l1; VI l2; u; p; VS proto].
+Proof. exact flow_get_key_sync_async. Qed.
+Print Assumptions C17_flow_get_key_sync_async.
+
+(* the regenerated _async_get_key run against the reference DC of C17_conversation_example returns that envelope *)
+Example C17_flow_conversation_example :
+  exists env,
+    run (WO ex_wrap ex_unwrap ex_pv ex_legs ex_dc 0) 0 k_flow_async_get_key
+      [VS [100; 99]; VB ex_sd; VB ex_rk; VI 361; VI 12; VI 31; VN; VN; VS [110; 116; 108; 109]] = Ok (VO (OEnvl env))
+    /\ (gke_l0 env, gke_l1 env, gke_l2 env) = (361, 12, 31).
+Proof.
+  destruct C17_conversation_example as (env & t & wire & args & _ & _ & _ & _ & _ & H6 & _ & _ & _ & _ & H11).
+  exists env. split; [|exact H6].
+  change (VB ex_rk) with (optbv (Some ex_rk)).
+  rewrite (C17_flow_async_get_key ex_wrap ex_unwrap ex_pv ex_legs ex_dc 0 0 [100; 99] ex_sd (Some ex_rk) 361 12 31 VN VN [110; 116; 108; 109])
+    by discriminate.
+  rewrite H11. reflexivity.
+Qed.
